@@ -12,7 +12,7 @@ RejectRequest/Piece/Extended0/ExtendedDontHave`), the scheduler commands (`PeerR
 
 Environment inputs (carried by the ops): the outcome of the rate/delay test of
 `maybeRequest` (`K`: the test `bytes/rate > maxdelay` is true iff `nr + 1 > K`; `none` = never),
-the retransmission timeout used by `expireRequests`, whether `AddData` stored a block, how
+the retransmission timeout used by `expireRequests`, how many bytes `AddData` stored, how
 many messages the writer goroutine has taken from the queue (`drain`), and a dead writer
 (`wblocked`: every `write` fails at once, `isCongested` is false — a zero-capacity queue
 whose `writerDone` is closed).
@@ -229,7 +229,7 @@ inductive Op where
   | mHaveAll | mHaveNone
   | mAllowedFast (i : Nat)
   | mReject (i b : Nat) (K : Option Nat)
-  | mPiece (i b : Nat) (stored : Bool) (K : Option Nat)
+  | mPiece (i b : Nat) (len n : Nat) (K : Option Nat)   -- data length, bytes AddData stored
   | mExt0 (reqq : Nat) (m : Option (Nat × Nat))   -- (ut_pex, lt_donthave) when Messages != nil
   | mDontHave (i : Nat)
   -- events from the torrent (handleEvent)
@@ -302,7 +302,7 @@ def handle (p : Peer) : Op → Ctx × Bool × String
         let c : Ctx := { p := { p with requests := rs } }
         let c1 := if r then drop c ch.toNat else c
         (maybeRequest K c1, false, if r then "reject" else "reject-unknown")
-  | .mPiece i b stored K =>
+  | .mPiece i b len n K =>
     if !p.hasInfo then ({ p := p }, true, "piece-noinfo")
     else if decide (i ≥ p.numPieces % 4294967296) then ({ p := p }, true, "piece-range")
     else
@@ -313,10 +313,14 @@ def handle (p : Peer) : Op → Ctx × Bool × String
         | none => ({ p := p, panic := true }, false, "piece-broken")
         | some (rs, q, r) =>
           let c : Ctx := { p := { p with requests := rs } }
+          -- `n == uint32(length) && n == chunkSize(peer, c)`: the data stored is exactly the
+          -- block that was asked for; anything else is a failed request
+          let stored := n == len && n == (chunkSize p.length ch).toNat
           let c1 := if (r || q) && !stored then drop c ch.toNat else c
           (maybeRequest K c1, false,
             if r then (if stored then "piece-requested" else "piece-requested-bad")
-            else if q then "piece-queued" else "piece-unknown")
+            else if q then (if stored then "piece-queued" else "piece-queued-bad")
+            else "piece-unknown")
   | .mExt0 reqq m =>
     if p.gotExtended then ({ p := p }, true, "ext0-dup")
     else
